@@ -242,6 +242,12 @@ fn apply_session(s: &mut attohttpc::Session, set: &Set) {
         Set::Compression(v) => s.allow_compression(*v),
         Set::Header(n, v, append) => {
             let name = attohttpc::header::HeaderName::from_bytes(n.as_bytes()).unwrap();
+            // (no draw) a refused operation first (a value with a line feed in it is no header value): the session
+            // is what it was before
+            if v == "v2" || v == "agent/9" {
+                let refused = if *append { s.try_header_append(name.clone(), "refused\nvalue") } else { s.try_header(name.clone(), "refused\nvalue") };
+                assert!(refused.is_err(), "harness: a header value with a line feed was accepted");
+            }
             if v.len() % 3 == 0 {
                 // (no draw) a typed value marked sensitive: same field on the wire
                 let mut hv = attohttpc::header::HeaderValue::from_str(v).unwrap();
